@@ -823,6 +823,13 @@ def run_c05(rep, tier):
     for b1 in bi3:
         paths += [b1 % (c2, 'q') for c2 in chains2] + [b1 % ('q', c2) for c2 in chains2]
     paths += [u0 % formulas.par(c2) for u0 in un4 for c2 in chains2]
+    # depth 3, every shape with a binary operator below / between unary ones (distinct atoms)
+    for u1 in un4:
+        for b1 in bi3:
+            paths += [u1 % formulas.par(u2 % formulas.par(b1 % ('p', 'q'))) for u2 in un4]
+            paths += [u1 % formulas.par(b1 % (u2 % 'p', 'q')) for u2 in un4] + [u1 % formulas.par(b1 % ('p', u2 % 'q')) for u2 in un4]
+            paths += [u1 % formulas.par(b1 % (b2 % ('p', 'q'), 'r')) for b2 in bi3] + [u1 % formulas.par(b1 % ('p', b2 % ('q', 'r'))) for b2 in bi3]
+            paths += [b1 % (u1 % formulas.par(b2 % ('p', 'q')), 'r') for b2 in bi3] + [b1 % ('r', u1 % formulas.par(b2 % ('p', 'q'))) for b2 in bi3]
     paths += ['((p or q) or (r or s) or (X p or X r))', '((p and q) and (r and s) and (F p and G s))', '(not (p or q) or not (r or s))', '((p or q) or not (r or s))']
     paths += ['((p U q) R r)', '(F p --> G (q or X r))', '(p and q and r)', '(p or q or r)', 'not (p and not q and X r)', 'G F p', 'F G (p --> q)', '((p R q) U (q R r))']
     ctl = formulas.ctl_phi1() + formulas.ctl_pairs()[::(3 if tier == 'quick' else 1)] + formulas.ctl_phi2_quick()[::(9 if tier == 'quick' else 2)]
@@ -837,6 +844,11 @@ def run_c05(rep, tier):
             for b3 in cb:
                 ctl.append(b1 % (b2 % ('p', 'E X q'), b3 % ('A F q', 'E G p')))
                 ctl.append(b1 % (b2 % ('A X p', 'q'), b3 % ('E (p U q)', 'A (q R p)')))
+    cu = ['not %s', 'A X %s', 'E X %s', 'A F %s', 'E F %s', 'A G %s', 'E G %s']
+    cbin = ['(%s and %s)', '(%s or %s)', '(%s --> %s)', 'A(%s U %s)', 'E(%s U %s)', 'A(%s R %s)', 'E(%s R %s)']
+    d3 = [u1 % formulas.par(u2 % formulas.par(b % ('p', 'q'))) for u1 in cu for u2 in cu for b in cbin]
+    d3 += [u1 % formulas.par(b % (formulas.par(u2 % 'p'), 'q')) for u1 in cu for u2 in cu for b in cbin[3:]] + [u1 % formulas.par(b % ('p', formulas.par(u2 % 'q'))) for u1 in cu for u2 in cu for b in cbin[3:]]
+    ctl += d3[::(2 if tier == 'quick' else 1)]
     ctl += ['not not E X p', 'not not not A G p', '(p and q and A X p)', '(p or q or E G p)', 'not (p and not q)']
     ctls_state = ctls_set(tier)[::(2 if tier == 'quick' else 1)] + ['not not A F p', 'not not not E (p U q)']
     tasks = [('CTL', ch) for ch in chunks(ctl, 12)] + [('CTLS', ch) for ch in chunks(ctls_state, 6)] + [('CTLS', ch, 3, 5, ('p', 'q', 'r', 's')) for ch in chunks(paths, 10)] + [('LTL', ch, 3, 5, ('p', 'q', 'r', 's')) for ch in chunks(paths, 10)]
